@@ -357,6 +357,13 @@ where
 //@     r is Ok ==> final(self).sink_ok(old(self)),   // [C14,C15]
 //@     // C01: no key but Enter invokes the handler
 //@     !(control is Enter) ==> final(processor).calls() == old(processor).calls(),   // [C01]
+//@     // C16: with history disabled Up and Down do nothing; with autocomplete disabled Tab does nothing
+//@     !feat_history() && (control is Up || control is Down) ==>
+//@         final(editor).line_bytes() == old(editor).line_bytes() && final(editor).cur() == old(editor).cur()
+//@         && final(self).writer.evs() == old(self).writer.evs() && final(self).prompt == old(self).prompt && r is Ok,   // [C16]
+//@     !feat_autocomplete() && control is Tab ==>
+//@         final(editor).line_bytes() == old(editor).line_bytes() && final(editor).cur() == old(editor).cur()
+//@         && final(self).writer.evs() == old(self).writer.evs() && final(self).prompt == old(self).prompt && r is Ok,   // [C16]
 //@     // C01: Enter invokes it at most once and only with the tokens of the line as it stood
 //@     control is Enter ==> (final(processor).calls() == old(processor).calls()
 //@         || (nul_free(old(editor).line_bytes()) ==> (dispatch_of(old(editor).line_bytes(), feat_help()) matches Some(x)
